@@ -11,7 +11,12 @@ import (
 // Registry invariants: values held by package-level maps of the module (command registries).
 
 // rootsAtGlobal: the map operand is a package-level variable of the module (possibly through nested lookups).
-func rootsAtGlobal(v ssa.Value) bool {
+func rootsAtGlobal(v ssa.Value) bool { return rootsAtGlobalD(v, 0) }
+
+func rootsAtGlobalD(v ssa.Value, depth int) bool {
+	if depth > 3 {
+		return false
+	}
 	for i := 0; i < 6; i++ {
 		switch x := v.(type) {
 		case *ssa.UnOp:
@@ -24,6 +29,30 @@ func rootsAtGlobal(v ssa.Value) bool {
 			v = x.X
 		case *ssa.Extract:
 			v = x.Tuple
+		case *ssa.Phi:
+			for _, e := range x.Edges {
+				if !rootsAtGlobalD(e, depth+1) {
+					return false
+				}
+			}
+			return len(x.Edges) > 0
+		case *ssa.Call:
+			// an accessor of the module that selects one of its registries: every return hands out a map rooted
+			// at a package-level variable
+			callee := x.Call.StaticCallee()
+			if callee == nil || callee.Blocks == nil || callee.Signature.Results().Len() != 1 {
+				return false
+			}
+			n := 0
+			for _, b := range callee.Blocks {
+				if ret, ok := b.Instrs[len(b.Instrs)-1].(*ssa.Return); ok {
+					n++
+					if !rootsAtGlobalD(ret.Results[0], depth+1) {
+						return false
+					}
+				}
+			}
+			return n > 0
 		default:
 			return false
 		}
